@@ -126,3 +126,50 @@ Definition run_asdict_any (init : list sstate) (pre : list op) (valid : list byt
                      else jnone
        | PNone => jnone
        end ].
+
+(* ---- histories over several Process objects (copies) *)
+(* per object inside its own block: the answer each source already gave in that block (the property: every later
+   answer in the block is that one -- whatever is done to other objects meanwhile) *)
+Fixpoint snap_get (o : nat) (s : src) (l : list (nat * src * nat)) : option nat :=
+  match l with
+  | [] => None
+  | (o', s', v) :: r => if Nat.eqb o o' && src_eqb s s' then Some v else snap_get o s r
+  end.
+Definition in_own_block (ms : msq) (o : nat) : bool :=
+  match nth_error (m_objs ms) o with Some (Some ob) => match o_stk ob with [] => false | _ => true end | _ => false end.
+
+Fixpoint run_copy_go (ms : msq) (h : list mop) (snaps : list (nat * src * nat)) (acc : list jv) : list jv :=
+  match h with
+  | [] => rev acc
+  | e :: r =>
+      let ms' := mstep ms e in
+      let '(acc', snaps1) :=
+        match e, m_res ms' with
+        | MOn o (OCall (CM m)), (t, o', _, a) :: _ =>
+            if Nat.eqb t (m_time ms)
+            then let held := if in_own_block ms o then snap_get o (m_src m) snaps else None in
+                 let al := match held with
+                           | Some v => Val v :: filter (fun x => match x with Val _ => false | _ => true end) (copy_allowed ms o m)
+                           | None => copy_allowed ms o m
+                           end in
+                 (JL [jn o; jv_on a; JL (map jv_on al); jbool (existsb (outcome_nat_eqb a) al)] :: acc,
+                  match a, held with
+                  | Val v, None => if in_own_block ms o then (o, m_src m, v) :: snaps else snaps
+                  | _, _ => snaps
+                  end)
+            else (acc, snaps)
+        | _, _ => (acc, snaps)
+        end in
+      let snaps2 := match e with
+                    | MOn o _ => if in_own_block ms' o then snaps1 else filter (fun x => negb (Nat.eqb (fst (fst x)) o)) snaps1
+                    | _ => snaps1
+                    end in
+      run_copy_go ms' r snaps2 acc'
+  end.
+Definition run_copy (init : list sstate) (h : list mop) : jv :=
+  let ms := mrun (srcs_of init) h in
+  JL [ JL (run_copy_go (m_init (srcs_of init)) h [] []);
+       JL (map (fun x => match x with
+                         | Some ob => JL [jbool (match o_fptr ob with Some _ => true | None => false end);
+                                          jbool (match nth (o_plat ob) (m_plats ms) None with Some _ => true | None => false end)]
+                         | None => jnone end) (m_objs ms)) ].
